@@ -66,6 +66,16 @@ pub fn groups() -> Vec<Group> {
 }
 
 /// All cases of all groups with at most `bound` costly deviations per group.
+/// Looks a case up by its id in the spaces of deviation bound 2 and, failing that, 3 (replays).
+pub fn find_case(id: &str) -> Option<Case> {
+    for b in [2, 3] {
+        if let Some(c) = generate(b).into_iter().find(|c| c.id() == id) {
+            return Some(c);
+        }
+    }
+    None
+}
+
 pub fn generate(bound: u32) -> Vec<Case> {
     let mut out = vec![];
     for g in groups() {
